@@ -166,6 +166,7 @@ class InterpCore:
         self.facts: List[Tuple[str, V, bool]] = []
         self.kinds: Dict[int, str] = {}
         self.notkinds: Dict[int, List[str]] = {}
+        self.elem_notkinds: Dict[str, List[str]] = {}
         self.stack: List[Frame] = []
         self.handlers: List[List[Any]] = []
         self.steps = 0
@@ -209,6 +210,7 @@ class InterpCore:
         self.facts = []
         self.kinds = {}
         self.notkinds = {}
+        self.elem_notkinds = {}
         self.stack = []
         self.handlers = []
         self.steps = 0
@@ -255,6 +257,14 @@ class InterpCore:
         return (not known) if neg else known
 
     def _refine(self, v: V, val: bool) -> None:
+        # `any(isinstance(x, K) for x in S)` is False  =>  no element of S is a K
+        if isinstance(v, Term) and v.op == "any" and not val and isinstance(v.args[0], Term) \
+                and v.args[0].op in ("gencomp", "listcomp"):
+            elt = v.args[0].args[0]
+            if isinstance(elt, Term) and elt.op == "isinstance" and isinstance(elt.args[0], Sym) \
+                    and elt.args[0].origin and elt.args[0].origin[0] in ("elem", "key") and isinstance(elt.args[1], str):
+                src = elt.args[0].origin[1]
+                self.elem_notkinds.setdefault(src.key(), []).extend(elt.args[1].split("|"))
         if isinstance(v, Term) and v.op == "isinstance":
             x, k = v.args
             uid = getattr(x, "uid", None)
